@@ -1,5 +1,5 @@
 (* Props/C19.v — cw20: the three allowance views agree, also after migration. Statements only. *)
-Require Import CwPlus.Params CwPlus.Base CwPlus.AMap CwPlus.Cw20Model CwPlus.Cw20Lemmas.
+Require Import CwPlus.Params CwPlus.Base CwPlus.AMap CwPlus.Cw20Model CwPlus.Cw20Lemmas CwPlus.Cw20Check CwPlus.Cw20CheckLemmas.
 Open Scope N_scope.
 
 (* in every reachable state the owner-keyed and the spender-keyed tables hold the same entry for
@@ -21,6 +21,14 @@ Theorem c19_migrate : forall st blk sender, sorted ordNN (allow st) ->
   exists st', step (downgrade st) blk sender Migrate = Ok (st', []) /\ Inv19 st'.
 Proof. exact migrate_legacy_inv19. Qed.
 
+(* the step contract S_C19 evaluated on the implementation never fires on a state satisfying the invariant,
+   when the point queries are the non-default entries of the owner-keyed table (which is what the
+   model's Allowance query returns) *)
+Theorem c19_contract_never_fires_on_model : forall post,
+  let st := state_of_obs post false in Inv19 st ->
+  ob_point post = filter (fun e => negb (is_default (snd e))) (ob_owner post) ->
+  s_c19 post = 0.
+Proof. exact s_c19_sound. Qed.
 Example c19_nonvacuous :
   exists st, instantiate (mkInit [(Some 1, 500)] None) = Ok st /\
     let st1 := run st [(mkBlock 1 1, 1, IncreaseAllowance (Some 2) 50 None, true);
@@ -32,3 +40,4 @@ Proof. eexists. split; [reflexivity|]. vm_compute. split; reflexivity. Qed.
 Print Assumptions c19_main.
 Print Assumptions c19_step.
 Print Assumptions c19_migrate.
+Print Assumptions c19_contract_never_fires_on_model.
